@@ -49,6 +49,11 @@ DEEP = FLAT_NESTED + [_deep("    x = " + "+".join(["1"] * n)) for n in (950, 100
         _deep("    x = " + " < ".join(["a"] * 1500))]
 
 
+# ... and too-deep programs that contain empty / whitespace-only lines, comments and unparseable lines
+DEEP = DEEP + [_deep("    x = " + "+".join(["1"] * n)).replace("def nada_main", "\n\ndef nada_main").replace("    return", "\n    # done\n   \n    return")
+               for n in (1000, 1500)] + \
+       ["from nada_dsl import *\n\nk = " + "-" * 1200 + "1\n\n\ndef nada_main():\n\treturn []\n\nbroken = = 1\n\n"]
+
 # long vertical gaps: runs of empty / whitespace-only lines at the start, in the middle and at the end of a program
 GAPS = [("\n" * a) + "from nada_dsl import *\n" + g * k + "def nada_main():\n    p = Party(name='P')\n" + g * k +
         "    a = SecretInteger(Input(name='a', party=p))\n" + g * k + "    return [Output(a, 'o', p)]\n" + g * b
